@@ -204,6 +204,10 @@ struct S<'g, 'r> {
     max_depth: usize,
     budget: usize,
     cost: &'r HashMap<String, usize>,
+    /// Do not insert skippable text (the gap enumeration adds it itself).
+    no_skip: bool,
+    /// Offsets in the output right after every terminal piece.
+    marks: Vec<usize>,
 }
 
 const INF: usize = 1 << 20;
@@ -253,7 +257,7 @@ pub fn rule_costs(g: &Grammar) -> HashMap<String, usize> {
 
 impl<'g, 'r> S<'g, 'r> {
     fn skip_text(&mut self, out: &mut String, atom_non: bool, depth: usize) {
-        if !atom_non || !self.rng.chance(1, 3) {
+        if self.no_skip || !atom_non || !self.rng.chance(1, 3) {
             return;
         }
         let names: Vec<&str> = ["WHITESPACE", "COMMENT"].into_iter().filter(|n| self.g.index.contains_key(*n)).collect();
@@ -296,6 +300,9 @@ impl<'g, 'r> S<'g, 'r> {
         if depth > self.max_depth + 30 || self.budget == 0 {
             // a rule that can only be derived through itself: give up on this branch
             return;
+        }
+        if matches!(n, Node::Str(_) | Node::Insens(_) | Node::Range(..) | Node::PeekSlice(..) | Node::Skip(_)) || matches!(n, Node::Ident { name, .. } if !self.g.index.contains_key(name.as_str())) {
+            self.marks.push(out.len());
         }
         match n {
             Node::Str(s) => out.push_str(s),
@@ -430,10 +437,72 @@ pub fn sentence(g: &Grammar, rule: &str, rng: &mut Rng, max_depth: usize) -> Str
 pub fn sentence_with_budget(g: &Grammar, rule: &str, rng: &mut Rng, max_depth: usize, budget: usize) -> String {
     let key = vutil::fnv(g.text.as_bytes());
     let cost = COSTS.with(|c| c.borrow_mut().entry(key).or_insert_with(|| rule_costs(g)).clone());
-    let mut s = S { g, rng, stack: Vec::new(), max_depth, budget, cost: &cost };
+    let mut s = S { g, rng, stack: Vec::new(), max_depth, budget, cost: &cost, no_skip: false, marks: Vec::new() };
     let mut out = String::new();
     let idx = g.index[rule];
     s.rule(idx, &mut out, true, 0);
+    out
+}
+
+/// A derivation without any skippable text, and the offsets of the gaps between its terminals
+/// (including 0 and the end).
+pub fn sentence_with_gaps(g: &Grammar, rule: &str, rng: &mut Rng, max_depth: usize) -> (String, Vec<usize>) {
+    let key = vutil::fnv(g.text.as_bytes());
+    let cost = COSTS.with(|c| c.borrow_mut().entry(key).or_insert_with(|| rule_costs(g)).clone());
+    let mut s = S { g, rng, stack: Vec::new(), max_depth, budget: 400, cost: &cost, no_skip: true, marks: Vec::new() };
+    let mut out = String::new();
+    let idx = g.index[rule];
+    s.rule(idx, &mut out, true, 0);
+    let mut gaps = std::mem::take(&mut s.marks);
+    gaps.push(out.len());
+    gaps.push(0);
+    gaps.sort();
+    gaps.dedup();
+    (out, gaps)
+}
+
+/// Skippable (and almost skippable) text at every single gap of a sentence, at every pair of
+/// neighbouring gaps, and at seeded subsets of the gaps: legal places (between sequence elements and
+/// iterations) and illegal ones (rule start / end, inside atomic bodies) alike.
+pub fn gap_inputs(g: &Grammar, rule: &str, a: &Alphabet, rng: &mut Rng, sentences: usize, subsets: usize) -> Vec<String> {
+    let mut fillers: Vec<String> = a.skippable.iter().take(3).cloned().collect();
+    fillers.extend(a.almost_skippable.iter().take(1).cloned());
+    if fillers.is_empty() {
+        fillers.push(" ".into());
+    }
+    let mut out = Vec::new();
+    for i in 0..sentences {
+        let (s, gaps) = sentence_with_gaps(g, rule, rng, 3 + i % 4);
+        if s.len() > 200 || gaps.len() > 40 {
+            continue;
+        }
+        out.push(s.clone());
+        let insert = |at: &[usize], f: &str| -> String {
+            let mut r = String::new();
+            let mut last = 0;
+            for p in at {
+                r.push_str(&s[last..*p]);
+                r.push_str(f);
+                last = *p;
+            }
+            r.push_str(&s[last..]);
+            r
+        };
+        for (k, p) in gaps.iter().enumerate() {
+            let f = &fillers[k % fillers.len()];
+            out.push(insert(&[*p], f));
+            if let Some(q) = gaps.get(k + 1) {
+                out.push(insert(&[*p, *q], &fillers[0]));
+            }
+        }
+        for _ in 0..subsets {
+            let pick: Vec<usize> = gaps.iter().copied().filter(|_| rng.chance(1, 3)).collect();
+            let f = rng.pick(&fillers).clone();
+            out.push(insert(&pick, &f));
+        }
+        // everywhere
+        out.push(insert(&gaps, &fillers[0]));
+    }
     out
 }
 
